@@ -242,6 +242,67 @@ func c17Retry(c *CheckCtx, counts map[string]int, samples *[]any) {
 	}
 }
 
+// c17RetryCancelInOp: the context is cancelled *inside* the k-th invocation of the
+// operation (which then fails transiently). No later invocation may happen. With a zero
+// backoff the retry loop's select finds both ctx.Done() and the backoff timer ready; Go
+// resolves that at random, which the explorer does not control, so each of those cases is
+// executed c17Repeat times (every execution is checked exactly).
+const c17Repeat = 64
+
+func c17RetryCancelInOp(c *CheckCtx, counts map[string]int, samples *[]any) {
+	cfgs := []leader.BackoffConfig{
+		{InitialBackoff: 0, MaxBackoff: 0, BackoffMultiplier: 2, Jitter: 0},
+		{InitialBackoff: 0, MaxBackoff: time.Second, BackoffMultiplier: 2, Jitter: 0.1},
+		{InitialBackoff: 50 * time.Millisecond, MaxBackoff: 400 * time.Millisecond, BackoffMultiplier: 2, Jitter: 0.1},
+	}
+	for ci, cfgB := range cfgs {
+		for maxA := 0; maxA <= 4; maxA++ {
+			for k := 1; k <= 4; k++ { // cancel inside the k-th invocation
+				if maxA > 0 && k > maxA {
+					continue
+				}
+				reps := 1
+				if cfgB.InitialBackoff == 0 {
+					reps = c17Repeat
+				}
+				for rep := 0; rep < reps; rep++ {
+					calls, after := 0, 0
+					var gotErr error
+					synctest.Test(c17T, func(t *testing.T) {
+						ctx, cancel := context.WithCancel(context.Background())
+						defer cancel()
+						rt.FloatFn = func() float64 { return 0.5 }
+						defer func() { rt.FloatFn = nil }()
+						cancelled := false
+						gotErr = leader.RetryWithBackoff(ctx, leader.RetryConfig{MaxAttempts: maxA, BackoffConfig: cfgB}, func() error {
+							calls++
+							if cancelled {
+								after++
+							}
+							if calls == k {
+								cancel()
+								cancelled = true
+							}
+							if calls > 8 {
+								return nil
+							}
+							return errTransientOp
+						})
+					})
+					counts["retry_cancel_in_op"]++
+					desc := fmt.Sprintf("RetryWithBackoff backoff-config #%d (Initial %v) MaxAttempts=%d, context cancelled inside invocation %d (repetition %d)", ci, cfgB.InitialBackoff, maxA, k, rep)
+					if after > 0 {
+						c.DirectViolation("retry-invocation-after-cancel", fmt.Sprintf("%s: the operation was invoked %d more time(s) after the cancellation; returned %v", desc, after, gotErr), desc)
+					}
+					if gotErr == nil {
+						c.DirectViolation("retry-nil-after-cancel", fmt.Sprintf("%s: returned nil", desc), desc)
+					}
+				}
+			}
+		}
+	}
+}
+
 // c17Breaker: every sequence of (outcome, gap) against the reference FSM.
 func c17Breaker(c *CheckCtx, counts map[string]int, samples *[]any) {
 	cool := 100 * time.Millisecond
@@ -341,9 +402,11 @@ func c17Direct(c *CheckCtx) {
 	var samples []any
 	c17Backoff(c, counts, &samples)
 	c17Retry(c, counts, &samples)
+	c17RetryCancelInOp(c, counts, &samples)
 	c17Breaker(c, counts, &samples)
 	c.extra["direct_backoff_cases"] = counts["backoff"]
 	c.extra["direct_retry_cases"] = counts["retry"]
+	c.extra["direct_retry_cancel_inside_operation_executions"] = counts["retry_cancel_in_op"]
 	c.extra["direct_breaker_sequences"] = counts["breaker"]
 	c.extra["direct_breaker_steps"] = counts["breaker_steps"]
 	c.extra["direct_nontrivial"] = counts["backoff_nontrivial"] + counts["retry_nontrivial"] + counts["breaker"]
